@@ -6,6 +6,12 @@ ASM = "addrow/*: ILLlib_findName, ILLsymboltab_register and ILLutil_str are stub
 GROUPS = [
     Group("addrow/room1", "lib_addrow.c", tus=LIB, model=MODEL, mem_gb=8, defines=["CNT1"], dfcc=False, unwind=18, kind="bounded", bound=B % "row/column arrays have room for one more", timeout=1800, namebuf=512,
           flags=["--no-malloc-may-fail"], slice=True, cut=["matrix_addrow_end"], must_fail=["reach_end", "reach_added"], functions=["ILLlib_addrow", "matrix_addrow", "matrix_addcol"], props=["C06", "C07", "C17"], assumed=[ASM]),
+    Group("addrow/grow1", "lib_addrow.c", tus=LIB, model=MODEL, mem_gb=10, defines=["CNT1", "FULL"], dfcc=False, unwind=18, kind="bounded", timeout=2400, namebuf=(512, None, 2),
+          bound=B % "row/column arrays FULL (capacity == count): every per-row / per-column array must grow; the growth steps EXTRA_ROWS / EXTRA_COLS are reduced from 100 to 2 (the one line defining each is replaced in the instantiated source, the growth code is unchanged)",
+          flags=["--no-malloc-may-fail"], slice=True, cut=["matrix_addrow_end"], must_fail=["reach_end", "reach_added"], functions=["ILLlib_addrow", "matrix_addrow", "matrix_addcol"], props=["C06", "C07", "C17"], assumed=[ASM]),
+    Group("addrow/first", "lib_addrow_first.c", tus=LIB, model=MODEL, mem_gb=8, dfcc=False, unwind=18, kind="bounded", timeout=2400, namebuf=(512, None, 2),
+          bound="2 empty structural columns, NO row yet (rowsize 0, every per-row array NULL), column arrays full (they grow as well); first row with 0..1 entries, arbitrary column index, sense byte, rhs, range, possibly colliding name; growth steps EXTRA_ROWS / EXTRA_COLS reduced from 100 to 2 (the one line defining each is replaced in the instantiated source); realloc branch of the matrix cut; loops completely unwound; allocation failure not explored",
+          flags=["--no-malloc-may-fail"], slice=True, cut=["matrix_addrow_end"], must_fail=["reach_end", "reach_added_ranged", "reach_added_grow_cols"], functions=["ILLlib_addrow", "matrix_addrow", "matrix_addcol"], props=["C06", "C07", "C17"], assumed=[ASM]),
     # addrow/full (row/column arrays full: every array grows by 100) ran out of memory after 2576 s on the final tree and is not registered
 ]
 
